@@ -10,7 +10,7 @@
      eq-false-after-<act> / hash-differs-after-<act>
      become-field-differs         some field of the receiver differs from its source after become()
      copy-shares-state            mutating one object changed another
-   The differing fields are printed with the verdict. *)
+   The differing fields are printed as <<"FIELD", tid, l, field>> lines next to the verdict. *)
 EXTENDS ObjStoreOps, Json, IOUtils
 Traces == JsonDeserialize(IOEnv.TRACE_FILE)
 VARIABLES tid, l
@@ -38,5 +38,8 @@ Init == tid \in 1..Len(Traces) /\ l = 1
 Next == l < Len(T.steps) /\ l' = l + 1 /\ tid' = tid
 Spec == Init /\ [][Next]_vars
 Check == IF Len(T.steps) = 0 THEN TRUE
-         ELSE LET v == Verdict(S) IN IF v[1] = "ok" THEN TRUE ELSE PrintT(<<"VERDICT", tid, l, v[1], v[2]>>)
+         ELSE LET v == Verdict(S) IN
+              IF v[1] = "ok" THEN TRUE
+              ELSE /\ PrintT(<<"VERDICT", tid, l, v[1]>>)         \* short tuples: TLC wraps long ones over several lines
+                   /\ \A f \in v[2] : PrintT(<<"FIELD", tid, l, f>>)
 =============================================================================
